@@ -117,18 +117,25 @@ inductive Act
   | finish       -- consumer: the body loop ends (size reached), the message is built
 deriving DecidableEq, Repr
 
-def step (s : S) : Act → Option S
+def stepN (need : Nat) (s : S) : Act → Option S
   | .append =>
     match s.future with
     | f :: rest => some { s with inbound := s.inbound ++ [f], future := rest }
     | [] => none
   | .start =>
+    -- `_build_message`: nothing happens while fewer than `buildStartNeeds` frames are queued (regenerated guard)
+    if s.inbound.length < need then none
+    else
     match s.phase, s.inbound with
     | .idle, a :: b :: rest =>
       -- `_build_message_headers`: pop two, check their types
       match a, b with
       | .deliver m, .header n p => some { s with inbound := rest, phase := .body m n p [] }
       | _, _ => some { s with inbound := rest, dropped := s.dropped + 1 }
+    | .idle, [_] =>
+      -- only with a weaker guard: the first `popleft` succeeds, the second raises IndexError, which
+      -- `_build_message` swallows - the frame that was popped is gone
+      some { s with inbound := [], dropped := s.dropped + 1 }
     | _, _ => none
   | .piece =>
     match s.phase, s.inbound with
@@ -145,6 +152,15 @@ def step (s : S) : Act → Option S
       if Gen.Loops.buildBodyContinues acc.length n then none
       else some { s with phase := .idle, out := s.out ++ [⟨m, p, acc⟩] }
     | .idle => none
+
+/-- the code as it is -/
+def step (s : S) (a : Act) : Option S := stepN Gen.Loops.buildStartNeeds s a
+
+def runN (need : Nat) (s : S) : List Act → Option S
+  | [] => some s
+  | a :: as => match stepN need s a with
+    | none => none
+    | some s' => runN need s' as
 
 def run (s : S) : List Act → Option S
   | [] => some s
